@@ -315,6 +315,80 @@ SN = common.Stream("named_dags", impl_named_dag, line_named_dag, judge_named_dag
 
 
 
+def gen_ext_decls(rng):
+    """a handful of ExternalModule objects over two names: some the same declaration made again, some differing in one thing"""
+    base = {"E": {"ports": [("a", 1, "NONE"), ("d", rng.choice([2, 8]), "INPUT")], "spice": "SUBCKT"},
+            "F": {"ports": [("x", 2, "OUTPUT")], "spice": rng.choice(["SUBCKT", "RESISTOR"])}}
+    decls = []
+    for _ in range(rng.randint(2, 5)):
+        nm = rng.choice(["E", "E", "F"])
+        d = {"name": nm, "domain": rng.choice(["lib", "lib", "lib2"]), "ports": list(base[nm]["ports"]), "spice": base[nm]["spice"]}
+        r = rng.random()
+        if r < 0.15:
+            k = rng.randrange(len(d["ports"]))
+            n_, w_, dr = d["ports"][k]
+            d["ports"][k] = (n_, w_ + 1, dr)                       # nothing but a width
+        elif r < 0.25:
+            k = rng.randrange(len(d["ports"]))
+            n_, w_, dr = d["ports"][k]
+            d["ports"][k] = (n_, w_, "INOUT" if dr != "INOUT" else "INPUT")   # nothing but a direction
+        elif r < 0.32:
+            d["spice"] = "DIODE" if d["spice"] != "DIODE" else "SUBCKT"
+        elif r < 0.4:
+            d["ports"] = list(reversed(d["ports"]))
+        decls.append(d)
+    return {"decls": decls}
+
+
+def impl_ext_decls(case):
+    from hdl21.external_module import SpiceType
+
+    mk = {"INPUT": h.Input, "OUTPUT": h.Output, "INOUT": h.Inout, "NONE": h.Port}
+    m = h.Module(name="ExtDecls")
+    try:
+        for k, d in enumerate(case["decls"]):
+            E = h.ExternalModule(name=d["name"], domain=d["domain"], port_list=[mk[dr](name=n, width=w) for n, w, dr in d["ports"]], paramtype=dict,
+                                 spicetype=SpiceType[d["spice"]])
+            conns = {n: m.add(h.Signal(width=w), name=f"s{k}_{n}") for n, w, _ in d["ports"]}
+            m.add(E({})(**conns), name=f"i{k}")
+        pkg = h.to_proto(m)
+    except RuntimeError as ex:
+        return {"refused": common.errstr(ex)}
+    except Exception as ex:  # noqa
+        return {"crash": common.errstr(ex)}
+    import vlsir.circuit_pb2 as vckt
+
+    return {"package": [{"domain": e.name.domain, "name": e.name.name, "spicetype": vckt.SpiceType.Name(e.spicetype),
+                         "signals": [[sg.name, sg.width] for sg in e.signals], "ports": [[p.signal, observe.dir_name(p.direction).upper()] for p in e.ports]} for e in pkg.ext_modules],
+            "refs": [[i.module.external.domain, i.module.external.name] for i in pkg.modules[-1].instances]}
+
+
+def line_ext_decls(case):
+    return {"prop": "XD", "op": "declare_all", "decls": [{"domain": d["domain"], "name": d["name"], "spicetype": d["spice"], "signals": [[n, w] for n, w, _ in d["ports"]],
+                                                          "ports": [[n, dr] for n, _, dr in d["ports"]]} for d in case["decls"]]}
+
+
+def judge_ext_decls(case, im, mo):
+    """(C06, `declarations_consistent`) the exporter's external-module declarations against the model of `export_external_module`"""
+    if "crash" in im:
+        yield ("corr", f"the exporter crashed: {im['crash']}")
+    elif ("refused" in im) != ("refused" in mo):
+        if "refused" in mo:
+            yield ("pred", {"why": "two different declarations of one external module were exported side by side or merged", "package": im["package"]})
+        else:
+            yield ("corr", f"the exporter refuses declarations the model shares: {im['refused'][:160]}")
+    elif "package" in im:
+        strip = lambda p: [{k: v for k, v in e.items()} for e in p]
+        if strip(im["package"]) != strip(mo["package"]):
+            yield ("corr", {"why": "the package's external-module declarations are not the model's", "impl": im["package"], "model": mo["package"]})
+        keys = [(e["domain"], e["name"]) for e in im["package"]]
+        if len(set(keys)) != len(keys) or any(tuple(r) not in keys for r in im["refs"]):
+            yield ("pred", {"why": "external-module declarations are not one per name, or an instance refers to an undeclared one", "package": im["package"]})
+
+
+SXD = common.Stream("ext_decls", impl_ext_decls, line_ext_decls, judge_ext_decls, chunk=8)
+
+
 def late_edit_programs():
     """Programs in which something a package is made from is edited late — after the library has looked at it once: whatever
     `to_proto` then returns must be a well-formed package (or it must raise)."""
@@ -429,6 +503,7 @@ def run(ctx):
     # 0. the default pass list composed on one module, then exported (ModulePipe.lean; module_pipeline_wf)
     import modpipe
     modpipe.run(ctx)
+    SXD.run(ctx, [gen_ext_decls(ctx.rng) for _ in range(120 if ctx.quick else 2500)])
     rep.extra["rule"] = (
         "every package exported from: generated designs (3 styles), the repository's examples (all packages their main() exports), "
         "Series/MosStack/Wrapper over nser ranges and unit kinds, a sample-PDK compiled design; non-trivial = has at least one instance; "
